@@ -117,6 +117,12 @@ class Unit:
     def translate_sig(self, sig):
         raise NotImplementedError
 
+    def helper_def(self, rec, name):
+        """the definition (FunctionDef, does it assign attributes of self) of a function (rec None) / method of the module that the
+        translator has no declared signature for — such a helper is INLINED at its call sites, typed by the arguments of each call —
+        or None"""
+        return None
+
 class ObjFn(Stmts):
     EXC_ASSERT = '.error .assertion'
     CAUGHT = {}
@@ -347,6 +353,74 @@ class ObjFn(Stmts):
             return t, sig.ret
         return self.hoist(B, comp), sig.ret
 
+    def inline_call(self, helper, rec, recv_text, recv_var, args, kws, node, B):
+        """a call of a helper without a declared signature: its body, translated with the parameter types of THIS call, in place of
+        the call (`match (show Except ε τ from let p := a; …body…) with | .ok r => …`)"""
+        fnode, writes = helper
+        a = fnode.args
+        if fnode.decorator_list or a.vararg or a.kwarg or a.posonlyargs or a.kwonlyargs: bad(node, f'signature of the helper {fnode.name}')
+        pnames = [x.arg for x in a.args]
+        if rec:
+            if not pnames or pnames[0] != 'self': bad(node, f'the helper {fnode.name} is not an ordinary method')
+            pnames = pnames[1:]
+        n_def = len(a.defaults)
+        if not all(isinstance(d, ast.Constant) and d.value is None for d in a.defaults): bad(node, f'defaults of the helper {fnode.name}')
+        given = dict(zip(pnames, args))
+        if len(args) > len(pnames): bad(node, f'call of the helper {fnode.name}: too many arguments')
+        for k, v in kws:
+            if k in given or k not in pnames: bad(node, f'call of the helper {fnode.name}: keyword {k}')
+            given[k] = v
+        for i, pn in enumerate(pnames):
+            if pn not in given:
+                if i < len(pnames) - n_def: bad(node, f'call of the helper {fnode.name}: argument {pn} missing')
+                given[pn] = ('()', NONE)
+        for n in ast.walk(fnode):
+            if isinstance(n, (ast.Global, ast.Nonlocal, ast.Lambda, ast.Yield, ast.YieldFrom, ast.Await, ast.Delete)) or \
+               (isinstance(n, (ast.FunctionDef, ast.ClassDef)) and n is not fnode):
+                bad(n, f'{type(n).__name__} in {fnode.name}')
+        if fnode in self.u.in_progress: bad(node, f'recursion through {fnode.name}')
+        self.u.in_progress.append(fnode)
+        cenv = {pn: given[pn][1] for pn in pnames}
+        if rec: cenv['self'] = REC(rec)
+        def run(probe, rt=None):
+            fn = type(self)(self.u, (f'{rec}.' if rec else '') + fnode.name, writes=writes)
+            fn.fnode = fnode
+            fn.ntmp = self.ntmp + len(pnames)
+            fn.quiet = self.quiet + (1 if probe else 0)
+            if probe: fn.ret_types = []
+            else: fn.ret_type = rt
+            return fn, fn.block(list(fnode.body), dict(cenv), fn.fall_off, set())
+        fn, _ = run(True)
+        rt = None
+        for t in fn.ret_types: rt = t if rt is None else self.T.join(rt, t, fnode)
+        rt = rt or NONE
+        # the arguments are evaluated in the caller's scope first
+        temps = []
+        for pn in pnames:
+            t = self.tmp()
+            B.append(lambda rest, t=t, text=given[pn][0]: ('let', t, text, rest))
+            temps.append(t)
+        fn, tree = run(False, rt)
+        self.ntmp = max(self.ntmp, fn.ntmp)
+        self.u.in_progress.pop()
+        for pn, t in reversed(list(zip(pnames, temps))):
+            tree = ('let', lname(pn), t, tree)
+        if rec and recv_text != 'self':
+            tree = ('let', 'self', recv_text, tree)
+        recty = self.T.lean_type(REC(rec)) if rec else None
+        if writes:
+            if recv_var is None: bad(node, f'{fnode.name} assigns attributes: the receiver must be a variable')
+            rv = self.lvar(recv_var)
+            if rt == NONE:
+                B.append(lambda rest, tree=tree, rv=rv: joinc(rv, tree, atom(recty), rest))
+                return '()', NONE
+            t = self.tmp()
+            B.append(lambda rest, tree=tree, rv=rv, t=t: joinc(f'({t}, {rv})', tree, f'({self.T.lean_type(rt)} × {recty})', rest))
+            return t, rt
+        t = self.tmp()
+        B.append(lambda rest, tree=tree, t=t: joinc(t, tree, atom(self.T.lean_type(rt)), rest))
+        return t, rt
+
     def call_args(self, e, env, B):
         """positional arguments (a `*t` of a tuple-typed value is spread) and keywords"""
         args = []
@@ -374,11 +448,18 @@ class ObjFn(Stmts):
             if f.id == 'isinstance':
                 st = self.static_truth(e, env)
                 return ('true' if st else 'false'), BOOL
+            if f.id == 'len' and len(e.args) == 1 and not e.keywords and not isinstance(e.args[0], ast.Starred):
+                t, ty = self.expr(e.args[0], env, B)
+                if ty != STR and ty[0] != 'list': bad(e, f'len of {ty}')
+                return f'({atom(t)}.length : Int)', INT
             if f.id == 'str' and len(e.args) == 1 and not e.keywords and not isinstance(e.args[0], ast.Starred):
                 return self.to_str(e.args[0], env, B), STR
             if f.id in self.u.funcs:
                 args, kws = self.call_args(e, env, B)
                 return self.call_sig(self.u.funcs[f.id], None, None, args, e, env, B, kws)
+            if self.u.helper_def(None, f.id):
+                args, kws = self.call_args(e, env, B)
+                return self.inline_call(self.u.helper_def(None, f.id), None, None, None, args, kws, e, B)
             if f.id in self.u.classes:
                 rec = self.u.classes[f.id]
                 sig = self.u.methods.get((rec, '__init__'))
@@ -390,10 +471,14 @@ class ObjFn(Stmts):
             # a method of a record
             recv = f.value
             if isinstance(recv, ast.Name) and recv.id in env and env[recv.id][0] == 'rec':
-                sig = self.u.methods.get((env[recv.id][1], f.attr))
+                rec = env[recv.id][1]
+                sig = self.u.methods.get((rec, f.attr))
                 if sig is not None:
                     args, kws = self.call_args(e, env, B)
                     return self.call_sig(sig, self.lvar(recv.id), recv.id, args, e, env, B, kws)
+                if self.u.helper_def(rec, f.attr):
+                    args, kws = self.call_args(e, env, B)
+                    return self.inline_call(self.u.helper_def(rec, f.attr), rec, self.lvar(recv.id), recv.id, args, kws, e, B)
         return self.prim_call(e, env, B)
 
     # ---------------- statements
@@ -436,7 +521,40 @@ class ObjFn(Stmts):
         return self.assign_other(target, value, s, env, go)
 
     def assign_other(self, target, value, s, env, go):
+        if isinstance(target, (ast.List, ast.Tuple)) and len(target.elts) == 1 and isinstance(target.elts[0], ast.Name):
+            # [x] = xs: ValueError unless xs has exactly one element
+            B = []
+            text, ty = self.expr(value, env, B)
+            if ty[0] != 'list': bad(s, f'unpacking a value of type {ty}')
+            x = target.elts[0].id
+            env2 = self.drop_aliases(env, x); env2[x] = ty[1]
+            return self.wrap(B, ('match', text, [(f'[{lname(x)}]', go(env2)), ('_', ('raw', f'.error {self.EXC_VALUE}'))]))
         bad(s, f'assignment target {ast.unparse(target)}')
+
+    EXC_VALUE = '.valueError'
+
+    def try_(self, s, env, go, live):
+        """on top of pytr.core: `except C as exc:` when the handler is a single `raise` (exc is message material);
+        `try: …; return e` is `try: …; ret_value = e` followed by `return ret_value` (a `return` does not raise)"""
+        if len(s.handlers) == 1 and not s.orelse and not s.finalbody:
+            h = s.handlers[0]
+            changed = False
+            body, after = list(s.body), []
+            if h.name is not None and len(h.body) == 1 and isinstance(h.body[0], ast.Raise):
+                h = ast.copy_location(ast.ExceptHandler(type=h.type, name=None, body=h.body), h); changed = True
+            if body and isinstance(body[-1], ast.Return) and body[-1].value is not None and not contains(body[:-1] + list(h.body), (ast.Return,)):
+                r = body[-1]
+                name = 'ret_value'
+                if name in env or name in assigned_names([self.fnode]): bad(s, f'the name {name} is taken')
+                body[-1] = ast.copy_location(ast.Assign(targets=[ast.copy_location(ast.Name(id=name, ctx=ast.Store()), r)], value=r.value), r)
+                after = [ast.copy_location(ast.Return(value=ast.copy_location(ast.Name(id=name, ctx=ast.Load()), r)), r)]
+                changed = True
+            if changed:
+                s2 = ast.copy_location(ast.Try(body=body, handlers=[h], orelse=[], finalbody=[]), s)
+                if after:
+                    return super().try_(s2, env, lambda env2: self.block(after, env2, go, live), live | {'ret_value'})
+                return super().try_(s2, env, go, live)
+        return super().try_(s, env, go, live)
 
     def call_stmt(self, c, s, env, go):
         B = []
@@ -469,7 +587,20 @@ class ObjFn(Stmts):
             return e.left.value.id, e.left.attr, isinstance(e.ops[0], ast.IsNot)
         return None
 
+    def is_narrowing(self, e, env):
+        nt = self.none_test(e, env)
+        return (nt is not None and env[nt[0]][0] == 'opt') or self.attr_none_test(e, env) is not None
+
     def if_(self, s, env, go, live):
+        t = s.test
+        if isinstance(t, ast.BoolOp) and isinstance(t.op, ast.And) and any(self.is_narrowing(v, env) for v in t.values) and s.orelse is not None:
+            # `if A and B: X else: Y` is `if A: (if B: X else: Y) else: Y` — so that `x is not None` narrows the type of x in X
+            # (Y is translated once per level)
+            first, more = t.values[0], t.values[1:]
+            rest = more[0] if len(more) == 1 else ast.copy_location(ast.BoolOp(op=ast.And(), values=more), t)
+            inner = ast.copy_location(ast.If(test=rest, body=s.body, orelse=s.orelse), s)
+            outer = ast.copy_location(ast.If(test=first, body=[inner], orelse=s.orelse), s)
+            return self.if_(outer, env, go, live)
         st = self.static_truth(s.test, env)
         if st is not None:
             self.note(f'{self.name} line {s.lineno}: `{ast.unparse(s.test)}` is {st} by typing; the other branch is dropped')
